@@ -114,6 +114,32 @@ async def _(tg: Any) -> Any:
     return (lambda: cond.wait()), snap, cleanup
 
 
+@cell("Condition.wait[cancelled scope keeps the lock, contender queued]", yields=None)
+async def _(tg: Any) -> Any:
+    cond = anyio.Condition()
+    await cond.acquire()
+    got: list[int] = []
+
+    async def contender() -> None:
+        with anyio.move_on_after(5):
+            await cond.acquire()
+            got.append(1)
+            cond.release()
+
+    tg.start_soon(contender)
+    await anyio.sleep(0)
+    await anyio.sleep(0)
+
+    def snap() -> Any:
+        # the contender never got in, the lock is still ours
+        return (cond.locked(), tuple(got), cond.statistics().lock_statistics.tasks_waiting)
+
+    async def cleanup() -> None:
+        cond.release()  # raises if the lock was handed to the contender meanwhile
+
+    return (lambda: cond.wait()), snap, cleanup
+
+
 @cell("MemoryStream.send[buffer has room]")
 async def _(tg: Any) -> Any:
     s, r = create_memory_object_stream[int](1)
@@ -338,27 +364,40 @@ async def probe_cell(name: str) -> dict[str, Any]:
     out: dict[str, Any] = {"cell": name}
     async with create_task_group() as tg:
         if want_cancel:
-            op, snap, cleanup = await maker(tg)
-            before = snap()
-            returned = False
-            raised: str | None = None
-            with CancelScope() as sc:
-                sc.cancel()
+            # the caller's scope is effectively cancelled in three shapes: the scope itself; the scope
+            # itself while also shielded; an enclosing scope (inner scope plain)
+            out["C_raised_cancel"] = True
+            out["C_state_unchanged"] = True
+            out["C_detail"] = ""
+            for shape in ("own", "own+shield", "parent"):
+                op, snap, cleanup = await maker(tg)
+                before = snap()
+                returned = False
+                raised: str | None = None
+                with CancelScope(shield=(shape == "own+shield")) as sc:
+                    sc.cancel()
+                    try:
+                        if shape == "parent":
+                            with CancelScope():
+                                await op()
+                        else:
+                            await op()
+                        returned = True
+                    except BaseException as e:
+                        raised = type(e).__name__
+                        raise
+                after = snap()
+                if returned or not sc.cancelled_caught:
+                    out["C_raised_cancel"] = False
+                if before != after:
+                    out["C_state_unchanged"] = False
+                out["C_detail"] += (f"[{shape}: returned={returned} raised={raised} before={before!r} "
+                                    f"after={after!r}] ")
                 try:
-                    await op()
-                    returned = True
-                except BaseException as e:
-                    raised = type(e).__name__
-                    raise
-            after = snap()
-            out["C_raised_cancel"] = (not returned) and sc.cancelled_caught
-            out["C_state_unchanged"] = before == after
-            out["C_detail"] = f"returned={returned} raised={raised} before={before!r} after={after!r}"
-            try:
-                await cleanup()
-            except BaseException as e:  # e.g. Condition lost its lock
-                out["C_state_unchanged"] = False
-                out["C_detail"] += f" cleanup failed: {e!r}"
+                    await cleanup()
+                except BaseException as e:  # e.g. Condition lost its lock
+                    out["C_state_unchanged"] = False
+                    out["C_detail"] += f"[{shape}: cleanup failed: {e!r}] "
         if want_yield is not None:
             op, snap, cleanup = await maker(tg)
             flag: list[int] = []
